@@ -83,11 +83,25 @@ def _case_w(draw, cfg, tier):
     return case
 
 
+@st.composite
+def _case_conv(draw, tier):
+    """Conveyor lines (workplaces chained by input links, components hopping from one to the next): where a component
+    may go after the pause is decided by links that have to survive the JSON file."""
+    from . import c13
+
+    case = draw(_case(CFG, tier))
+    spec = draw(c13._conveyor(c13.CFG_CONV))
+    spec.pop("warm", None)
+    spec.pop("unit_time", None)
+    case["spec"] = spec
+    return case
+
+
 def strategy(tier):
     if tier == "quick":
-        return st.one_of(_case(CFG, tier), _case(CFG, tier), _case(CFG_N, tier), _case_w(CFG_W, tier), _case_w(CFG_W, tier), _case_w(CFG_W, tier))
+        return st.one_of(_case(CFG, tier), _case(CFG, tier), _case(CFG_N, tier), _case_w(CFG_W, tier), _case_w(CFG_W, tier), _case_w(CFG_W, tier), _case_conv(tier))
     big = dict(max_tasks=9, max_time=[40])
-    return st.one_of(_case(CFG.copy(**big), tier), _case(CFG.copy(**big), tier), _case(CFG_N.copy(**big), tier), _case_w(CFG_W.copy(max_tasks=7, max_workers=4), tier))
+    return st.one_of(_case(CFG.copy(**big), tier), _case(CFG.copy(**big), tier), _case(CFG_N.copy(**big), tier), _case_w(CFG_W.copy(max_tasks=7, max_workers=4), tier), _case_conv(tier))
 
 
 def budget(tier):
